@@ -162,8 +162,8 @@ def mc_core(tier):
         a = core.model_check("MC_STFS.tla", "MC_STFS_small.cfg", timeout=900)
         b = core.model_check("MC_STFS.tla", "MC_STFS_handles.cfg", timeout=900)
     else:
-        a = core.model_check("MC_STFS.tla", "MC_STFS_thorough.cfg", timeout=3000, heap="24g")
-        b = core.model_check("MC_STFS.tla", "MC_STFS_handles_thorough.cfg", timeout=3000, heap="24g")
+        a = core.model_check("MC_STFS.tla", "MC_STFS_thorough.cfg", timeout=5400, heap="24g", cache=True)
+        b = core.model_check("MC_STFS.tla", "MC_STFS_handles_thorough.cfg", timeout=3000, heap="24g", cache=True)
     for k in ("distinct", "generated", "wall_s"):
         a[k] += b[k]
     return a
@@ -180,9 +180,9 @@ def run_core(prop, tier, seed, t0, replay_item=None):
     else:
         mc = mc_core(tier)
         log("[%s] TLC exhaustive: %d distinct / %d generated states in %.0fs, all invariants hold on the design" % (prop, mc["distinct"], mc["generated"], mc["wall_s"]))
-        plan = [("wide", 100), ("deep", 45), ("long", 12), ("handles", 40)] if tier == "quick" else [("wide", 1500), ("deep", 700), ("long", 200), ("handles", 600)]
+        plan = [("wide", 100), ("deep", 45), ("long", 12), ("handles", 40)] if tier == "quick" else [("wide", 600), ("deep", 300), ("long", 80), ("handles", 250)]
         if prop in ("C12", "C13"):
-            plan = [("wide", 70), ("deep", 40), ("long", 10), ("handles", 24), ("tiny", 30)] if tier == "quick" else plan + [("tiny", 600)]
+            plan = [("wide", 70), ("deep", 40), ("long", 10), ("handles", 24), ("tiny", 30)] if tier == "quick" else plan + [("tiny", 250)]
         behs, gen_states = generate_core(seed, plan)
         rng = random.Random(seed)
         items = []
@@ -210,7 +210,7 @@ def run_core(prop, tier, seed, t0, replay_item=None):
     # ---- binding B: record executions the model did not choose, validate them with TLC
     tstats = {"traces": 0, "events": 0, "states": 0}
     if replay_item is None and prop in TRACE_PROPS:
-        n, length = (24, 40) if tier == "quick" else (160, 80)
+        n, length = (24, 40) if tier == "quick" else (100, 70)
         tstats = trace_part(rep, prop, runner, seed, n, length, tier)
     nontrivial = set()
     for it in items:
